@@ -1032,6 +1032,117 @@ def replay_bodies(chk, n):
             chk.violation(f"C06:body[{mt}]:content-type", f"Content-Type {ct!r} for media type {mt!r}", {"mechanism": "body", "media_type": mt, "body": body})
 
 
+
+# ---- coverage phase: one Template, a history of cases (shared containers) ---------------------------------------------------
+
+CNAME = {"path": "path_parameters", "query": "query", "header": "headers", "cookie": "cookies"}
+
+
+def corr_template_history(chk, n, variants):
+    """SV/Model/C06Template.lean (`runT .entry`): the k-th case built from one `Template` carries the template's values
+    serialized once, whatever cases were built before it.  Real side: one `Template` object, `add_parameter` for every
+    value, then a random history of unmodified / with_body / with_parameter / with_container."""
+    from schemathesis.generation import GenerationMode
+    from schemathesis.generation.coverage import GeneratedValue
+    rng, drv = chk.rng, chk.driver()
+    vq, vt, vm, vs, _ = variants
+    runs, reqs = [], []
+
+    def gv(v):
+        return GeneratedValue(value=copy.deepcopy(v), generation_mode=GenerationMode.POSITIVE, description="d", parameter=None,
+                              location=None)
+    for _ in range(n):
+        locs = rng.sample(LOCS, rng.choice([1, 2, 2, 3]))
+        if rng.random() < 0.6 and "path" not in locs:
+            locs[0] = "path"
+        all_defs, conts = [], {}
+        for loc in locs:
+            defs = []
+            for nm in rng.sample(["p", "q", "id"], rng.choice([1, 2])):
+                # half of the path parameters are plain (no style serializer at all): the case quote_all is alone with
+                plain = rng.random() < 0.5
+                ty = "string" if plain else rng.choice(TYPES)
+                d = raw_def(nm, loc, ty, None if plain else rng.choice(LEGAL_STYLES[loc]), None if plain else rng.choice(EXPLODES))
+                if loc == "path":
+                    d["required"] = True
+                defs.append(d)
+            all_defs += defs
+            conts[loc] = {d["name"]: gen_val(rng, d["schema"]["type"]) for d in defs}
+        ops = []
+        for _ in range(rng.randint(2, 5)):
+            r = rng.random()
+            loc = rng.choice(locs)
+            if r < 0.45:
+                ops.append({"op": "unmodified", "body": rng.random() < 0.3})
+            elif r < 0.8:
+                nm = rng.choice(list(conts[loc]))
+                ty = next(d["schema"]["type"] for d in all_defs if d["in"] == loc and d["name"] == nm)
+                ops.append({"op": "withParameter", "loc": loc, "name": nm, "value": gen_val(rng, ty)})
+            else:
+                c = {k: gen_val(rng, next(d["schema"]["type"] for d in all_defs if d["in"] == loc and d["name"] == k))
+                     for k in conts[loc] if rng.random() < 0.8}
+                ops.append({"op": "withContainer", "loc": loc, "container": c})
+        template_url = "/u/" + "/".join("{%s}" % d["name"] for d in all_defs if d["in"] == "path") if "path" in locs else "/u"
+        pl = Pipeline(all_defs, template_url, "http://127.0.0.1/api")
+        tpl = Template(get_serializers_for_operation(pl.operation))
+        for loc in locs:
+            for nm, v in conts[loc].items():
+                tpl.add_parameter(loc, nm, gv(v))
+        impl = []
+        try:
+            for op in ops:
+                if op["op"] == "unmodified":
+                    tv = tpl.with_body(media_type="application/json", value=gv({"b": 1})) if op.get("body") else tpl.unmodified()
+                elif op["op"] == "withParameter":
+                    tv = tpl.with_parameter(location=op["loc"], name=op["name"], value=gv(op["value"]))
+                else:
+                    tv = tpl.with_container(container_name=CNAME[op["loc"]], value=copy.deepcopy(op["container"]),
+                                            generation_mode=GenerationMode.POSITIVE)
+                impl.append({loc: canon_container(tv.kwargs[CNAME[loc]]) for loc in locs})
+        except Exception as e:  # noqa: BLE001
+            impl.append(f"EXC:{type(e).__name__}")
+        runs.append((locs, all_defs, conts, ops, impl))
+        reqs.append(("template_history", {
+            "vq": vq, "vt": vt, "vm": vm, "vs": vs,
+            "defs": [{"loc": loc, "defs": [wire_def(d) for d in all_defs if d["in"] == loc]} for loc in locs],
+            "conts": [{"loc": loc, "container": enc_container(conts[loc])} for loc in locs],
+            "ops": [{"op": o["op"], **({"loc": o["loc"]} if "loc" in o else {}), **({"name": o["name"]} if "name" in o else {}),
+                     **({"value": enc_val(o["value"])} if "value" in o else {}),
+                     **({"container": enc_container(o["container"])} if "container" in o else {})} for o in ops]}))
+    for (locs, defs, conts, ops, impl), m in zip(runs, drv.batch(reqs)):
+        inp = {"locations": locs, "defs": defs, "template": conts, "ops": ops}
+        model_err(m, inp)
+        chk.case("Template:history-of-cases", key=[locs, [wire_def(d) for d in defs], {k: enc_container(v) for k, v in conts.items()},
+                                                   _json.dumps(ops, sort_keys=True, default=repr)], sample={**inp, "impl": impl})
+        chk.feature(f"template-history:ops={len(ops)}")
+        if impl and isinstance(impl[-1], str):
+            chk.feature("template-history:raised")
+            continue
+        first_of = {}
+        for k, (case_m, case_i) in enumerate(zip(m, impl)):
+            mm = {l: c for l, c in case_m}
+            if any(c is None for c in mm.values()):
+                chk.feature("template-history:outside-model(repr)")
+                continue
+            got = {l: typed(case_i[l]) for l in locs}
+            want = {l: typed(mm[l]) for l in locs}
+            if got != want:
+                chk.disagreement("Template:history-of-cases", {**inp, "case_index": k}, want, got)
+                break
+        # specification replay (independent of the model): a container that a case does not vary must equal what the first
+        # case that did not vary it carried
+        for k, (op, case_i) in enumerate(zip(ops, impl)):
+            for l in locs:
+                if op.get("loc") == l:
+                    continue
+                if l in first_of and first_of[l] != case_i[l]:
+                    chk.violation("C06:Template._serialize:unvaried-container-changes-between-cases-of-one-template",
+                                  f"{CNAME[l]} was {first_of[l]!r} in an earlier case and is {case_i[l]!r} in case #{k} although "
+                                  f"neither case varies it: the template's value was serialized again", {**inp, "case_index": k})
+                    break
+                first_of.setdefault(l, case_i[l])
+
+
 # ---- coverage phase: Template._serialize --------------------------------------------------------------------------------
 
 def corr_template(chk, n, variants):
@@ -1630,6 +1741,7 @@ def run(chk):
     corr_headers(chk, chk.budget(500, 5000))
     replay_bodies(chk, chk.budget(300, 3000))
     corr_template(chk, chk.budget(1500, 15000), variants)
+    corr_template_history(chk, chk.budget(400, 4000), variants)
     corr_empty_dicts(chk, chk.budget(200, 2000))
     coverage_stability(chk)
     lap("headers+bodies+template")
